@@ -37,6 +37,7 @@ func init() {
 }
 
 func c07Exec(frame []byte, c *explore.Chooser, maxZero int, log bool) (string, *env.Reader) {
+	resetGlobals()
 	r := &env.Reader{Data: frame, C: c, MaxZero: maxZero, Log: log}
 	p, err, res := readPacket(r, stepBudget(len(frame)))
 	return outcome(p, err, res), r
